@@ -205,7 +205,7 @@ def gen(rng, tier, index):
         sites = [s['id'] for s in desc['stages'][:upto] if s['op'] == 'map'] or ['u0']
         for _ in range(rng.randrange(1, 3)):
             faults.append({'stage': rng.choice(sites), 'pos': rng.randrange(n),
-                           'exc': rng.choice(['filter', 'value', 'key'])})
+                           'exc': rng.choice(['filter', 'value', 'key', 'index'])})
     nout = len(a.elems) if a.elems is not None else n
     cases = []
     base = {'desc': desc, 'faults': faults, 'seed': rng.randrange(1 << 30)}
